@@ -267,6 +267,62 @@ def has_nested_nonfinal(t, top=True):
     return False
 
 
+def est_size(v):
+    k = v[0]
+    if k == "p":
+        return 16 if v[1] == "f128" else 8
+    if k == "s":
+        return 8 + 4 * len(v[1])
+    if k == "d":
+        return 8 + sum(est_size(x) for _, x in v[1])
+    if k == "q":
+        return 8 + len(v[2]) * (16 if v[1] == "f128" else 8 if v[1] in ("u64", "i64", "f64") else 4)
+    if k == "qs":
+        return 8 + sum(8 + 4 * len(x) for x in v[1])
+    if k == "qd":
+        return 8 + sum(est_size(("d", d)) for d in v[1])
+    return 8
+
+
+def anyt(p, t):
+    if p(t):
+        return True
+    k = t[0]
+    if k in ("Q", "A"):
+        return anyt(p, t[-1])
+    if k == "S":
+        return any(anyt(p, m[2]) for m in t[2])
+    if k == "U":
+        return anyt(p, t[2]) or any(anyt(p, m[4]) for m in t[3])
+    return False
+
+
+def may_be_empty(t):
+    """an element of this type may consume no input (the reader then loops `length` times for free)"""
+    k = t[0]
+    if k == "S":
+        return t[1] == "M" or all((m[1] & 1) or may_be_empty(m[2]) for m in t[2])
+    if k == "A":
+        return t[1] == 0 or may_be_empty(t[2])
+    if k == "U":
+        return t[1] == "M"
+    return False
+
+
+def misparse_prone(ver, t, v):
+    """classes in which the real reader is known to lose its position: a misparsed length over
+    zero-progress elements makes the real code spin for 2^32 iterations"""
+    if stage_of(t) == 3:
+        return True
+    if ver == 1 and anyt(lambda x: x == ("p", "f128") or (x[0] == "S" and any(m[1] & 1 for m in x[2])), t):
+        return True
+    return anyt(lambda x: x == ("p", "c8"), t)
+
+
+def risky(ver, t, v):
+    return misparse_prone(ver, t, v) and anyt(lambda x: x[0] in ("Q", "A") and may_be_empty(x[-1]), t)
+
+
 def gen(r, tier):
     n = {"quick": 3000, "search": 12000, "thorough": 60000}[tier]
     cases = []
@@ -289,10 +345,12 @@ def gen(r, tier):
         else:
             t = gen_struct(r, depth, stage)
         v = gen_value(r, t)
-        if count_nodes(v) > 1500:
+        if count_nodes(v) > 700 or est_size(v) > 3000:
             continue
         ver = r.choice([1, 2])
         end = r.choice(["le", "be"])
+        if risky(ver, t, v):
+            continue
         q = r.random()
         if q < 0.04 and t[0] == "S":
             cases.append(("rt", ver, end, t, mutate_value(r, v)))
@@ -618,17 +676,6 @@ def nontrivial(c, out):
 
 
 def stage_of(t):
-    def anyt(p, t):
-        if p(t):
-            return True
-        k = t[0]
-        if k in ("Q", "A"):
-            return anyt(p, t[-1])
-        if k == "S":
-            return any(anyt(p, m[2]) for m in t[2])
-        if k == "U":
-            return anyt(p, t[2]) or any(anyt(p, m[4]) for m in t[3])
-        return False
     if anyt(lambda x: x[0] == "U" or (x[0] == "S" and x[1] == "M"), t):
         return 3
     if anyt(lambda x: x[0] == "S" and (x[1] == "A" or any(m[1] & 1 for m in x[2])), t):
